@@ -48,11 +48,18 @@ Inductive op :=
 | GrDown (p : N)                       (* unregister_peer(addr, [], all families) ; peer_down: paths kept, stale *)
 | DropStale (p : N)                    (* drop_stale_families *)
 | DropFam (p : N)                      (* drop_families *)
+| MarkLlgr (p : N)                     (* mark_llgr_stale: the peer's NO_LLGR paths are deleted *)
 | SoftReset (p : N)
 | SetPol (n : N)
 | Nhv (a : N).                         (* update_nexthop_validity: walks the shards, no Adj-RIB-In effect *)
 
 (* atomic steps *)
+(* which paths of a peer a purge selects: the stale ones (drop_stale), all (disconnected),
+   the ones carrying the NO_LLGR community (drop_no_llgr, called by mark_llgr_stale) *)
+Inductive pmode := PStale | PAll | PNoLlgr.
+(* the attribute blocks of the harness: tokens 4.. carry NO_LLGR *)
+Definition nollgr_tok (tok : N) : bool := 4 <=? tok.
+
 Inductive mstep :=
 | MSubReg (j : nat)                    (* subscribers.rcu(push) *)
 | MWalk (j : nat)                      (* lock next shard, send its snapshot; after the last shard: EndOfSnapshot *)
@@ -68,7 +75,7 @@ Inductive mstep :=
 | MStaleShard (p : N) (s : N)          (* lock shard s; mark_stale(addr, family) *)
 | MPeerDownGr (p : N)                  (* PeerDown; the next session gets a new Source *)
 | MPurgePrep (p : N)
-| MPurgeShard (all : bool) (p : N) (s : N)   (* lock shard s; drop_stale / disconnected *)
+| MPurgeShard (all : pmode) (p : N) (s : N)   (* lock shard s; drop_stale / disconnected / drop_no_llgr *)
 | MResetPrep (p : N)                   (* import_policy / subscribers loads *)
 | MResetShard (p : N) (s : N)
 | MSetPol (n : N)
@@ -84,8 +91,9 @@ Definition expand (o : op) : list mstep :=
   | Up p => [MUp p]
   | Down p => [MUnregPrep p; MUnregShard p 0; MUnregShard p 1; MPeerDown p]
   | GrDown p => [MUnregPrep p; MStaleShard p 0; MStaleShard p 1; MPeerDownGr p]
-  | DropStale p => [MPurgePrep p; MPurgeShard false p 0; MPurgeShard false p 1]
-  | DropFam p => [MPurgePrep p; MPurgeShard true p 0; MPurgeShard true p 1]
+  | DropStale p => [MPurgePrep p; MPurgeShard PStale p 0; MPurgeShard PStale p 1]
+  | DropFam p => [MPurgePrep p; MPurgeShard PAll p 0; MPurgeShard PAll p 1]
+  | MarkLlgr p => [MPurgePrep p; MPurgeShard PNoLlgr p 0; MPurgeShard PNoLlgr p 1]
   | SoftReset p => [MResetPrep p; MResetShard p 0; MResetShard p 1]
   | SetPol n => [MSetPol n]
   | Nhv a => [MNhvPrep a; MNhvShard a 0; MNhvShard a 1]
@@ -215,9 +223,14 @@ Definition nonnone {A} (o : option A) : bool := match o with Some _ => true | No
 
 (* TableShard::disconnected / drop_stale for one shard: the selected paths vanish;
    since the fix of finding C18-3 each is withdrawn from the subscribers *)
-Definition purge_sel (g : glob) (all : bool) (p s : N) (q : key) : bool :=
-  (k_peer q =? p) && in_shard s q && (all || is_stale g q).
-Definition purge_shard (g : glob) (all : bool) (p s : N) : glob :=
+Definition purge_sel (g : glob) (all : pmode) (p s : N) (q : key) : bool :=
+  (k_peer q =? p) && in_shard s q &&
+  match all with
+  | PAll => true
+  | PStale => is_stale g q
+  | PNoLlgr => match g_rib g q with Some (tok, _) => nollgr_tok tok | None => false end
+  end.
+Definition purge_shard (g : glob) (all : pmode) (p s : N) : glob :=
   let ks := filter (fun q => purge_sel g all p s q && nonnone (g_rib g q)) (g_keys g) in
   let evs := flat_map (fun q => [evk false q None; evk true q None]) ks in
   with_rib g (live g) (match v with Legacy => [] | Fixed => evs end) (g_keys g)
@@ -278,7 +291,7 @@ Definition exec (g : glob) (t : thread) (m : mstep) : glob * thread :=
   | MInsLocked k tok => (ins_locked g (t_pol t) k tok, t)
   | MRemLocked k => (rem_locked g k, t)
   | MUp p => (with_evs g [EvUp p], t)
-  | MUnregShard p s => (purge_shard g true p s, t)
+  | MUnregShard p s => (purge_shard g PAll p s, t)
   | MPeerDown p =>
     (with_rib g (live g) [EvDown p] (g_keys g) (g_rib g) (g_ssn g) (set_ctr p 0 (g_ctr g)), t)
   | MStaleShard p s => (stale_shard g p s, t)
